@@ -140,6 +140,9 @@ type Options struct {
 	// V1: both parties offer handshake versions up to 1 only (no static keys
 	// are kept); default is up to 2.
 	V1 bool
+	// SrvV1: only the server is limited to version 1 (an older server); the
+	// client offers up to 2 and negotiates down.
+	SrvV1 bool
 	// PrePaired: both parties already know each other's static key.
 	PrePaired bool
 	Patience  time.Duration
@@ -176,7 +179,11 @@ func New(o Options) (*Session, error) {
 	if o.V1 {
 		max = 1
 	}
-	s.S = mk("s", auth, max)
+	smax := max
+	if o.SrvV1 {
+		smax = 1
+	}
+	s.S = mk("s", auth, smax)
 	s.C = mk("c", nil, max)
 	s.X = mk("x", nil, max)
 	if o.PrePaired {
